@@ -85,6 +85,29 @@ pub fn check_input(x: &[u8]) -> Obs {
             _ => {}
         }
     }
+    // What the streaming parser hands out *before* its first error must be what the independent
+    // reading finds at the same grammar points: message heads (with the announced number of values,
+    // which is visible before any entry or checksum is read) and the number of values.
+    if let Some(s) = &s {
+        let rs = ref_progress(x);
+        let n = s.starts.len().min(rs.starts.len());
+        if s.starts.len() > rs.starts.len() {
+            f.push((
+                "C04 streaming parser emits a message start the independent reading does not reach",
+                format!("streaming announced {:?}, reference reaches only {:?}", s.starts, rs.starts),
+            ));
+        } else if s.starts[..n] != rs.starts[..n] {
+            f.push((
+                "C04 streaming parser emits a message start that differs from the independent reading",
+                format!("streaming {:?} reference {:?}", s.starts, rs.starts),
+            ));
+        } else if s.n_entries > rs.n_entries {
+            f.push((
+                "C04 streaming parser emits more list values than the independent reading finds",
+                format!("streaming {} reference {}", s.n_entries, rs.n_entries),
+            ));
+        }
+    }
     if let (Some(c), Some(s)) = (&c, &s) {
         match (c, &s.err) {
             (Ok(a), None) => {
@@ -156,6 +179,17 @@ impl Acc {
             }
         }
         for (class, what) in &o.findings {
+            // On a generated well-formed file the reference's reading *is* the abstract file that was
+            // encoded (asserted by gen_family), so a content difference is a completeness failure.
+            let class: &str = if family.starts_with("generated") && class.contains("differ") && class.starts_with("C04") {
+                if class.contains("streaming") {
+                    "C03 streaming events do not carry exactly the content of a well-formed file"
+                } else {
+                    "C03 allocating parser does not return exactly the content of a well-formed file"
+                }
+            } else {
+                class
+            };
             let class: String = if self.rename_c12 && (class.starts_with("C03") || class.starts_with("C04")) { format!("C12 (type-length field / primitive value) {}", &class[4..]) } else { class.to_string() };
             if self.report.iter().any(|p| class.starts_with(p)) {
                 self.tally.add(e4_viol(&class, what.clone(), x));
@@ -1069,6 +1103,12 @@ pub fn replay(case: &J) -> Vec<Viol> {
         .into_iter()
         .flat_map(|(c, w)| {
             let mut v = vec![e4_viol(c, w.clone(), &x)];
+            // the same observation under the names the C03 / C12 checks give it
+            if c.starts_with("C04") && c.contains("differ") {
+                let alias = if c.contains("streaming") { "C03 streaming events do not carry exactly the content of a well-formed file" } else { "C03 allocating parser does not return exactly the content of a well-formed file" };
+                v.push(e4_viol(alias, w.clone(), &x));
+                v.push(e4_viol(&format!("C12 (type-length field / primitive value) {}", &alias[4..]), w.clone(), &x));
+            }
             if c.starts_with("C03") || c.starts_with("C04") || rename {
                 v.push(e4_viol(&format!("C12 (type-length field / primitive value) {}", &c[4..]), w, &x));
             }
